@@ -842,6 +842,66 @@ def check_runs(ctx, d):
     for v in variants[:2]:
         ctx.sample('run-pairs', {'entry': f'{v["row"]["name"]}, {v["text"]}', 'base': v['base']})
     check_output_requests(ctx, d, bases[:-1], res[:-1])      # the capped base serves the input pairs only
+    check_plant_requests(ctx, d)
+
+
+def judge_request(ctx, d, b, r, x, seenk):
+    """one "Units:<output>, <unit>" run against its base: every changed scalar line and table column must be the old one converted,
+    under the requested unit -> (changed a line?, changed a table?)"""
+    o = x['out']
+    k = f'{o["utype"]}:{o["cur"][1] or "dimensionless"}:{x["u"]}'
+    inp = {'part': 'run-output', 'entry': f'Units:{o["name"]}, {x["u"]}', 'input_file': runner.params_to_text(x['lines'])}
+
+    def file(key, what, expected=None, observed=None):
+        if key not in seenk:
+            seenk.add(key)
+            ctx.violate('property', key, what, inp=inp, expected=expected, observed=observed)
+
+    if not r['ok'] or not r['report']:
+        file(f'run-output:raises:{k}', f'the run with "Units:{o["name"]}, {x["u"]}" fails: {str(r["error"])[:200]}', observed={'error': str(r['error'])[:300]})
+        return 0, 0
+    bad, changed = report_diffs(d, b['report'], r['report'], scalar_only=True, requested=x['u'])
+    tbad, tchanged = more.table_diffs(sys.modules[__name__], d, b['report'], r['report'], x['u'], o['cur'][1])
+    for kind, where, xl, yl in tbad:
+        file(f'run-output:{kind}:{o["name"]}:{where.split(": column")[0]}',
+             f'with "Units:{o["name"]}, {x["u"]}" the table {where} shows "{yl}" where it showed "{xl}": ' +
+             ('the column is converted but its header keeps the old unit' if kind == 'stale-header' else
+              'the header changes to the requested unit but the numbers under it do not' if kind == 'header-only' else
+              'not the old column times the conversion factor under the requested unit'), xl, yl)
+    for label, xl, yl, kind in bad:
+        file(f'run-output:stale-label:{o["name"]}:{label}' if kind == 'stale-label' else f'run-output:line:{k}:{label}',
+             f'with "Units:{o["name"]}, {x["u"]}" the report says "{yl}" where it said "{xl}": ' +
+             ('the value is converted but the label is not' if kind == 'stale-label' else 'not the same quantity under the new label'), xl, yl)
+    return (1 if changed else 0), (1 if tchanged else 0)
+
+
+def check_plant_requests(ctx, d):
+    """plant-type specific report lines (chiller: LCOC, cooling; heat pump / district heating: LCOH and their own outputs): a run of THAT
+    plant type with a "Units:" request on its levelized cost and on the outputs only that plant has"""
+    from lib import configs
+    rnd = ctx.rng
+    bases = [configs.synthetic(rnd, enduse=2, plant=pl, resmodel=4, econ=ec, nseg=2, addons=False) for pl, ec in ((5, 1), (6, 2), (7, 1))]
+    res = runner.run_many(ctx, [runner.params_to_text(b) for b in bases])
+    common = {o['name'] for o in d['outs'] if o['cls'] == 'SurfacePlant'}
+    reqs = []
+    for bi, (base, r) in enumerate(zip(bases, res)):
+        if not r['ok'] or not r['snap'] or not r['report']:
+            ctx.note(f'plant-specific base {bi} did not run: {str(r["error"])[:100]}')
+            continue
+        used = {c.get('__class__') for c in r['snap'].values() if isinstance(c, dict)}
+        lev = [o for o in d['outs'] if o['cls'] in used and o['name'] in ('LCOE', 'LCOH', 'LCOC')]
+        own = [o for o in d['outs'] if o['cls'] == r['snap']['surfaceplant']['__class__'] and o['name'] not in common]
+        for o in lev + own:
+            us = [u for u in o['units'] if u not in ('', o['cur'][1]) and to_unit(d, 1, o['cur'][1], u) is not None]
+            rnd.shuffle(us)
+            for u in us[:ctx.n(2 if o in lev else 1, 99)]:
+                reqs.append({'base': bi, 'out': o, 'u': u, 'lines': list(base) + [(f'Units:{o["name"]}', u)]})
+    rres = runner.run_many(ctx, [runner.params_to_text(x['lines']) for x in reqs])
+    seenk, eff = set(), 0
+    for x, r in zip(reqs, rres):
+        eff += judge_request(ctx, d, res[x['base']], r, x, seenk)[0]
+    ctx.count('run-output-requests-plant-specific', evaluations=len(reqs), nontrivial_keys=[(x['base'], x['out']['name'], x['u']) for x in reqs],
+              changed_a_report_line=eff)
 
 
 def check_output_requests(ctx, d, bases, res):
@@ -875,36 +935,9 @@ def check_output_requests(ctx, d, bases, res):
     rres = runner.run_many(ctx, [runner.params_to_text(x['lines']) for x in reqs])
     seenk, effective, tables = set(), 0, 0
     for x, r in zip(reqs, rres):
-        b = res[x['base']]
-        o = x['out']
-        k = f'{o["utype"]}:{o["cur"][1] or "dimensionless"}:{x["u"]}'
-        inp = {'part': 'run-output', 'entry': f'Units:{o["name"]}, {x["u"]}', 'input_file': runner.params_to_text(x['lines'])}
-        if not r['ok'] or not r['report']:
-            key = f'run-output:raises:{k}'
-            if key not in seenk:
-                seenk.add(key)
-                ctx.violate('property', key, f'the run with "Units:{o["name"]}, {x["u"]}" fails: {str(r["error"])[:200]}', inp=inp,
-                            observed={'error': str(r['error'])[:300]})
-            continue
-        bad, changed = report_diffs(d, b['report'], r['report'], scalar_only=True, requested=x['u'])
-        tbad, tchanged = more.table_diffs(sys.modules[__name__], d, b['report'], r['report'], x['u'], o['cur'][1])
-        effective += 1 if changed else 0
-        tables += 1 if tchanged else 0
-        for kind, where, xl, yl in tbad[:2]:
-            key = f'run-output:{kind}:{o["name"]}:{where.split(": column")[0]}'
-            if key not in seenk:
-                seenk.add(key)
-                ctx.violate('property', key, f'with "Units:{o["name"]}, {x["u"]}" the table {where} shows "{yl}" where it showed "{xl}": ' +
-                            ('the column is converted but its header keeps the old unit' if kind == 'stale-header' else
-                             'the header changes to the requested unit but the numbers under it do not' if kind == 'header-only' else
-                             'not the old column times the conversion factor under the requested unit'), inp=inp, expected=xl, observed=yl)
-        for label, xl, yl, kind in bad[:3]:
-            key = f'run-output:stale-label:{label}' if kind == 'stale-label' else f'run-output:line:{k}:{label}'
-            if key not in seenk:
-                seenk.add(key)
-                ctx.violate('property', key, f'with "Units:{o["name"]}, {x["u"]}" the report says "{yl}" where it said "{xl}": ' +
-                            ('the value is converted but the label is not' if kind == 'stale-label' else 'not the same quantity under the new label'),
-                            inp=inp, expected=xl, observed=yl)
+        ch, tch = judge_request(ctx, d, res[x['base']], r, x, seenk)
+        effective += ch
+        tables += tch
     ctx.count('run-output-requests', evaluations=len(reqs), nontrivial_keys=[(x['out']['name'], x['u']) for x in reqs], changed_a_report_line=effective, changed_a_table=tables)
 
 
